@@ -68,9 +68,35 @@ let isolation_pred ~frozen ~model_panic_at (kinds : (int * int * string) array) 
   let why = ref "" in
   let fail_with s = if !why = "" then why := s in
   let cur : string array ref = ref [||] in
+  (* `state` harness: after `@`, the view of the trie cached under each stored root (`-`: none).
+     A root's view never changes, and it is the view the stored handle had at its StoreTrie. *)
+  let rcur : (int, string) Hashtbl.t = Hashtbl.create 8 in
+  let pending : int list ref = ref [] in
+  let split_roots l =
+    let rec f acc = function
+      | [] -> (List.rev acc, [])
+      | "@" :: r -> (List.rev acc, r)
+      | x :: r -> f (x :: acc) r in
+    f [] l in
+  let check_roots k tok ro =
+    List.iteri (fun j x ->
+      if x = "-" || x = "=" then ()
+      else match Hashtbl.find_opt rcur j with
+        | None -> Hashtbl.replace rcur j x; pending := j :: !pending
+        | Some y ->
+          fail_with (Printf.sprintf "step %d (%s) changed the trie cached under stored root %d: %s -> %s" k tok j y x)) ro in
+  let new_root k tok =
+    (if String.length tok > 1 && tok.[0] = 'S' then begin
+       let idx = int_of_string ("0x" ^ String.sub tok 1 (String.length tok - 1)) in
+       List.iter (fun j ->
+         if idx < Array.length !cur && Hashtbl.find rcur j <> (!cur).(idx) then
+           fail_with (Printf.sprintf "step %d (%s): trie cached under the new root differs from the stored handle" k tok)) !pending
+     end else if !pending <> [] then
+       fail_with (Printf.sprintf "step %d (%s): a stored root appeared without StoreTrie" k tok));
+    pending := [] in
   (if Array.length recs = 0 then fail_with "no-observation" else begin
     (match String.split_on_char '/' recs.(0) with
-     | "init" :: o -> cur := Array.of_list o
+     | "init" :: o -> cur := Array.of_list (fst (split_roots o))
      | _ -> fail_with "init-shape");
     let nsteps = Array.length kinds in
     Array.iteri (fun k (target, snapsrc, tok) ->
@@ -80,7 +106,9 @@ let isolation_pred ~frozen ~model_panic_at (kinds : (int * int * string) array) 
         | ["panic"] | ["err"] | ["bad"] ->
           if not (List.hd f = "panic" && model_panic_at = k) then
             fail_with (Printf.sprintf "step %d (%s): %s" k tok (List.hd f))
-        | _ :: o ->
+        | _ :: o0 ->
+          let o, ro = split_roots o0 in
+          check_roots k tok ro;
           if List.mem "panic" o then fail_with (Printf.sprintf "step %d (%s): panic while observing" k tok)
           else begin
             let o = Array.of_list o in
@@ -95,7 +123,8 @@ let isolation_pred ~frozen ~model_panic_at (kinds : (int * int * string) array) 
                else if snapsrc < nold && next.(nold) <> next.(snapsrc) then
                  fail_with (Printf.sprintf "step %d (%s): new snapshot differs from its source: %s vs %s" k tok next.(nold) next.(snapsrc))
              end else if Array.length next <> nold then fail_with (Printf.sprintf "step %d: handle count changed" k));
-            cur := next
+            cur := next;
+            new_root k tok
           end
         | [] -> fail_with "empty-record"
       end) kinds;
@@ -182,9 +211,22 @@ let check_state inp obs0 =
   let toks = (match split_ws inp with "state" :: r -> r | _ -> fail "C03: bad state input") in
   let buf = Buffer.create 1024 in
   let st0, o0 = observe fg init_state in
-  Buffer.add_string buf (String.concat "/" ("init" :: o0));
+  Buffer.add_string buf (String.concat "/" ("init" :: o0 @ ["@"]));
   let model_panic_at = ref (-1) in
-  let tries : (string, int) Hashtbl.t = Hashtbl.create 16 in      (* root -> first handle stored under it *)
+  let tries : (string, int) Hashtbl.t = Hashtbl.create 16 in      (* database: root -> first handle stored under it *)
+  let roots = ref [] in                                           (* the distinct stored roots, latest first *)
+  (* the in-memory Tries map of the current session: root -> (handle with that trie's contents,
+     loaded from the database?).  LoadFromDB builds the trie with NewTrie(nil, db): version V0;
+     the reload itself (pkg/trie/inmemory Load, property C04/C05) is taken as a view-equal copy. *)
+  let cache : (string, int * bool) Hashtbl.t = Hashtbl.create 16 in
+  let prev_r : (string, string) Hashtbl.t = Hashtbl.create 16 in
+  let render_roots cur =
+    "@" :: List.map (fun root ->
+      match Hashtbl.find_opt cache root with
+      | None -> "-"
+      | Some (j, _) ->
+        let o = List.nth cur j in
+        if Hashtbl.find_opt prev_r root = Some o then "=" else (Hashtbl.replace prev_r root o; o)) (List.rev !roots) in
   let stored : (int, string) Hashtbl.t = Hashtbl.create 16 in     (* handle -> root at its last StoreTrie *)
   let core = ref [] in                                            (* the model steps performed, in order *)
   let kinds = ref [] in
@@ -203,6 +245,7 @@ let check_state inp obs0 =
       let f = String.split_on_char ':' body in
       let idx = int_of_string ("0x" ^ List.hd f) in
       let nidx = nat_of_int idx in
+      let v0_new = ref false in
       let (steps, target, snapsrc) : step list * int * int =
         (match tok.[0], f with
          | 'p', [_; ky; v] -> ([Put (nidx, bytes_of_hex ky, bytes_of_hex v)], idx, -1)
@@ -211,15 +254,24 @@ let check_state inp obs0 =
          | 'v', [_; v] -> ([SetVer (nidx, v = "1")], -1, -1)
          | 'S', [_] ->
            let root = root_of st idx in
-           if not (Hashtbl.mem tries root) then Hashtbl.add tries root idx;
+           if not (Hashtbl.mem tries root) then begin Hashtbl.add tries root idx; roots := root :: !roots end;
+           if not (Hashtbl.mem cache root) then Hashtbl.add cache root (idx, false);
            Hashtbl.replace stored idx root;
            ([HashOp nidx; Commit nidx], -1, -1)
          | 'T', [_] ->
            let root = (try Hashtbl.find stored idx with Not_found -> fail "C03 state: T of an unstored handle") in
-           let j = Hashtbl.find tries root in
+           let (j, loaded) =
+             (match Hashtbl.find_opt cache root with
+              | Some c -> c
+              | None -> let j = Hashtbl.find tries root in Hashtbl.add cache root (j, true); (j, true)) in
+           v0_new := loaded;
            (* TrieState panics when the cached trie no longer has the expected root *)
            if root_of st j <> root then ([], -2, -1)
            else ([HashOp (nat_of_int j); Snap (nat_of_int j)], -1, j)
+         | 'R', [_] -> Hashtbl.reset cache; ([], -1, -1)
+         | 'X', [_] ->
+           let root = (try Hashtbl.find stored idx with Not_found -> fail "C03 state: X of an unstored handle") in
+           Hashtbl.remove cache root; ([], -1, -1)
          | _ -> fail "C03 state: bad step %s" tok) in
       kinds := (target, snapsrc, tok) :: !kinds;
       Buffer.add_char buf ' ';
@@ -228,8 +280,13 @@ let check_state inp obs0 =
         let (st1, res) = run_core st steps in
         (match res with
          | ROk ->
+           let st1 =
+             if !v0_new then   (* the snapshot of a trie rebuilt from the database is a V0 trie *)
+               { st1 with s_hs = List.mapi (fun i hd ->
+                   if i = List.length st1.s_hs - 1 then { hd with h_v1 = false } else hd) st1.s_hs }
+             else st1 in
            let st2, cur = observe fg st1 in
-           Buffer.add_string buf (String.concat "/" ("ok" :: render prev cur));
+           Buffer.add_string buf (String.concat "/" ("ok" :: render prev cur @ render_roots cur));
            go st2 cur (k + 1) r
          | RPanic -> model_panic_at := k; Buffer.add_string buf "panic"
          | RBad -> Buffer.add_string buf "bad")
@@ -243,8 +300,14 @@ let check_state inp obs0 =
   let prop_ok = (why = "") in
   let model_eq = (model = obs) in
   let nT = List.length (List.filter (fun t -> t.[0] = 'T') toks) in
+  let reloads =
+    let rec f dropped = function
+      | [] -> false
+      | t :: r -> if t.[0] = 'R' || t.[0] = 'X' then f true r else (dropped && t.[0] = 'T') || f dropped r in
+    f false toks in
   let tags = String.concat "," (
     ["state-harness"; Printf.sprintf "state-blocks-%d" nT]
+    @ (if reloads then ["state-reload-from-db"] else [])
     @ (if frozen then ["frozen-parents"] else ["parent-mutated"])
     @ (if Hashtbl.length tries < Hashtbl.length stored then ["state-same-root-stored-twice"] else [])) in
   { prop_ok; model_eq; nontrivial = (nT >= 1); finding = "-"; tags;
